@@ -62,6 +62,10 @@ func (ln *listener) open() (err error) {
 		case "unix":
 			_ = os.RemoveAll(ln.address)
 			ln.fd, ln.addr, err = socket.UnixSocket(ln.network, ln.address, true, ln.sockOptInts, ln.sockOptStrs)
+			if err != nil {
+				// bind may have created the socket file already.
+				_ = os.RemoveAll(ln.address)
+			}
 		default:
 			err = errorx.ErrUnsupportedProtocol
 		}
